@@ -13,3 +13,9 @@ mod c17_defaults;
 mod c25_price_feed;
 #[cfg(kani)]
 mod c16_config_keys;
+#[cfg(kani)]
+mod c33_referral;
+#[cfg(kani)]
+mod c20_permissions;
+#[cfg(kani)]
+mod c32_builder_fee;
